@@ -1327,3 +1327,55 @@ func isLoopHeader(b *ssa.BasicBlock) bool {
 	}
 	return false
 }
+
+// rune.truncate: a rune is turned into a single byte only when it is known to be ASCII.
+func runeTruncateRule(c *Ctx, rule string, pkgs ...string) {
+	c.Rule(rule + " rune.truncate: in " + fmt.Sprint(pkgs) + " a value of type rune (int32) is converted to a byte only under a dominating comparison that bounds it below 0x80 (or equates it with an ASCII constant): a character above U+007F written as one byte is not UTF-8")
+	n := 0
+	for _, fn := range c.P.pkgFuncs(pkgs...) {
+		for _, b := range fn.Blocks {
+			for _, ins := range b.Instrs {
+				cv, ok := ins.(*ssa.Convert)
+				if !ok {
+					continue
+				}
+				to, ok1 := cv.Type().Underlying().(*types.Basic)
+				from, ok2 := cv.X.Type().Underlying().(*types.Basic)
+				if !ok1 || !ok2 || to.Kind() != types.Uint8 || from.Kind() != types.Int32 {
+					continue
+				}
+				if _, isC := cv.X.(*ssa.Const); isC {
+					continue
+				}
+				n++
+				c.Sites++
+				c.Fn(FuncName(fn))
+				bounded := false
+				for d := b; d != nil && d.Idom() != nil; d = d.Idom() {
+					p := d.Idom()
+					iff, ok := p.Instrs[len(p.Instrs)-1].(*ssa.If)
+					if !ok || len(d.Preds) != 1 || p.Succs[0] == p.Succs[1] {
+						continue
+					}
+					bo, ok := iff.Cond.(*ssa.BinOp)
+					if !ok || bo.X != cv.X {
+						continue
+					}
+					k, isC := constInt(bo.Y)
+					if !isC {
+						continue
+					}
+					onTrue := p.Succs[0] == d
+					switch {
+					case onTrue && bo.Op == token.LSS && k <= 0x80, onTrue && bo.Op == token.LEQ && k <= 0x7f, onTrue && bo.Op == token.EQL && k < 0x80,
+						!onTrue && bo.Op == token.GEQ && k <= 0x80, !onTrue && bo.Op == token.GTR && k <= 0x7f:
+						bounded = true
+					}
+				}
+				c.Check(bounded, rule, FuncName(fn)+":byte(rune)["+pathName(cv.X)+"]", cv.Pos(), "only for ASCII",
+					"a rune is converted to a single byte without being known to be below 0x80: characters U+0080..U+00FF (é, ü, £ …) are written as one raw byte, which is not valid UTF-8")
+			}
+		}
+	}
+	_ = n
+}
